@@ -143,6 +143,28 @@ func genC06(g *Gen, tier string, w *bufio.Writer) {
 			default:
 				inner, plan = "SELECT c0 FROM e.csv t LIMIT 100", "un limit 0 un map 0 src csvSource 0"
 			}
+			if shapeNo == 21 && g.Bool() {
+				// the failure happens ABOVE a Limit on exactly the record that fills the limit (or one before / after it): the
+				// limit's own "stop" must not be confused with the error coming back down through it
+				lim := rows
+				failsHere := false
+				if pos >= 0 {
+					lim = pos + 1 + Pick(g, []int{0, 0, 0, 1, 100, -1})
+					if lim < 1 {
+						lim = 1
+					}
+					failsHere = lim >= pos+1
+				}
+				inner = fmt.Sprintf("SELECT c0, m FROM e.csv t LIMIT %d", lim)
+				var s errShape
+				if g.Bool() {
+					s = errShape{"SELECT c0 FROM (" + inner + ") q WHERE " + pred, "un map 0 un filter " + flag01(failsHere) + " un limit 0 un map 0 src csvSource 0", []qfile{e}}
+				} else {
+					s = errShape{"SELECT " + pred + " AS b FROM (" + inner + ") q", "un map " + flag01(failsHere) + " un limit 0 un map 0 src csvSource 0", []qfile{e}}
+				}
+				fmt.Fprintln(w, errqLine(mode, s))
+				continue
+			}
 			// every generated inner query returns at least one row (rows >= 1; r.csv covers keys 0..3; outer join keeps r's rows)
 			where := g.Bool()
 			var s errShape
